@@ -126,7 +126,17 @@ func (e *Env) MakeHealthy() {
 				continue
 			}
 			gen, _ := o["metadata"].(map[string]any)["generation"]
-			want := map[string]any{"conditions": []any{map[string]any{"type": "Ready", "status": "True", "reason": "Fine"}}}
+			ready := map[string]any{"type": "Ready", "status": "True", "reason": "Fine"}
+			conds := []any{ready}
+			switch e.CondStyle {
+			case 1:
+				ready["lastTransitionTime"] = "2024-01-01T00:00:00Z"
+				ready["message"] = "all good"
+			case 2:
+				ready["lastTransitionTime"] = "2024-01-01T00:00:00.123456"
+				conds = []any{map[string]any{"type": "Initialized", "status": "True", "lastTransitionTime": "", "observedGeneration": "7"}, ready}
+			}
+			want := map[string]any{"conditions": conds}
 			if og, ok := e.healthyOG(gen); ok {
 				want["observedGeneration"] = og
 			}
